@@ -68,6 +68,13 @@ static void limit_protocol(int k, size_t flen, size_t plen, uint64_t declared_di
 			else if (pk > (long long)LOW + (long long)LZMA_MEMUSAGE_BASE + 65536) FAILM("allocated-beyond-limit", "%s: %lld bytes requested although the limit was lowered to LZMA_MEMUSAGE_BASE %s", DN[k], pk, phase ? "after the first byte" : "before any input"); }
 		else if (sr != LZMA_MEMLIMIT_ERROR) FAILM("memlimit_set", "%s: lzma_memlimit_set(LZMA_MEMUSAGE_BASE) %s returned %d", DN[k], phase ? "after the first byte" : "before any input", sr);
 		lzma_end(&u); }
+	// 6. the single-call form: lzma_stream_buffer_decode() with a limit that is too small reports LZMA_MEMLIMIT_ERROR and stores the needed amount in *memlimit
+	//    (container.h: "The minimum required memlimit value was stored to *memlimit"); that value must be enough, and must agree with the streaming decoder
+	if (k == D_STREAM) { H_CASE("c09 limits stream_buffer_decode %s", desc); uint64_t ml = 1; size_t ip = 0, op = 0; reset_counters(); r = lzma_stream_buffer_decode(&ml, 0, &AL, file, &ip, flen, out2, &op, sizeof out2);
+		if (r != LZMA_MEMLIMIT_ERROR) FAILM("limit-not-enforced", "lzma_stream_buffer_decode with *memlimit = 1 returned %d", r);
+		else { if (ml != need) FAILM("buffer-decode-need", "lzma_stream_buffer_decode stored %llu in *memlimit, the streaming decoder reports a need of %llu", (unsigned long long)ml, (unsigned long long)need); if (ip != 0 || op != 0) FAILM("buffer-decode-need", "positions moved on error");
+			if (ml <= (1ull << 30) && ml > 1) { uint64_t ml2 = ml; ip = op = 0; r = lzma_stream_buffer_decode(&ml2, 0, &AL, file, &ip, flen, out2, &op, sizeof out2); if (r != LZMA_OK || op != plen || memcmp(out2, plain, plen)) FAILM("buffer-decode-need", "lzma_stream_buffer_decode with the limit it asked for (%llu) returned %d", (unsigned long long)ml, r); } }
+		if (atomic_load(&live_n)) FAILM("leak", "%ld blocks live after lzma_stream_buffer_decode", atomic_load(&live_n)); }
 }
 // big dictionary first, small dictionary later (two Blocks of one Stream, or the handle reused for a second file): what is still held must not exceed what lzma_memusage() reports
 static void part_shrink(void) {
@@ -126,7 +133,9 @@ static void part_limits(int thorough) {
 		if (lzma_memlimit_set(&s, need) != LZMA_OK) FAILM("memlimit_set", "index decoder: memlimit_set(need) refused"); r = dcode(&s); long long pk = atomic_load(&peak_b);
 		if (r != LZMA_STREAM_END || !out || lzma_index_block_count(out) != (lzma_vli)nrec) FAILM("continue-after-raise", "index decoder after raising to %llu returned %d", (unsigned long long)need, r);
 		if ((uint64_t)pk > need + LZMA_MEMUSAGE_BASE) FAILM("allocated-beyond-limit", "index decoder: peak %lld > limit %llu", pk, (unsigned long long)need); n_nontrivial++;
-		lzma_index_end(out, &AL); lzma_end(&s); }
+		lzma_index_end(out, &AL); lzma_end(&s);
+		{ uint64_t ml = 1; size_t ip = 0; lzma_index *o2 = NULL; lzma_ret br = lzma_index_buffer_decode(&o2, &ml, &AL, ib, &ip, il); if (br != LZMA_MEMLIMIT_ERROR || o2) FAILM("limit-not-enforced", "lzma_index_buffer_decode with *memlimit = 1 returned %d", br);
+			else { if (ml != need) FAILM("buffer-decode-need", "lzma_index_buffer_decode stored %llu in *memlimit, the streaming Index decoder needs %llu", (unsigned long long)ml, (unsigned long long)need); ip = 0; br = lzma_index_buffer_decode(&o2, &ml, &AL, ib, &ip, il); if (br != LZMA_OK || !o2 || lzma_index_block_count(o2) != (lzma_vli)nrec) FAILM("buffer-decode-need", "lzma_index_buffer_decode with the limit it asked for returned %d", br); lzma_index_end(o2, &AL); } } }
 	// file-info on two concatenated Streams: the limit applies to the combined Index, not per Stream.
 	// file-info never reads Block data, so the Streams are header + zero-filled Block area + Index + footer built with the public API.
 	for (int nb = 0; nb < 3; nb++) { if ((unit++ % nsh) != sh) continue; static uint8_t big[3 << 20]; size_t bl = 0; int N = nb == 0 ? 3000 : nb == 1 ? 20000 : 40000; if (nb == 2 && !thorough) continue;
